@@ -3,3 +3,19 @@ from checks import masks_common
 
 def run(ctx):
     masks_common.run(ctx, "upd")
+
+
+MANIFEST = {'engine': "spec/Msg.tla + spec/Masks.tla (TLC) + harness 'masks'",
+ 'technique': 'TLA+ reference semantics of masked writes; TLC laws (MC), TLC-generated tuples replayed on '
+              'FieldUpdater/Value/Collection, TLC evaluates the property predicates on the real results',
+ 'text': 'TLC checks exhaustively over a small message/mask domain that the TLA+ reference merge satisfies '
+         'frame, scalar-assignment, reset and empty-mask clauses; TLC then generates thousands of (stored, '
+         'written, update mask, writable mask, extra-writable, reset mask) tuples, the harness runs each '
+         'through masks.FieldUpdater, Value.Set and Collection.Update built from the working tree, and TLC '
+         'evaluates the property clauses (and equality with the reference merge where the mask must be '
+         'accepted) on every real result. Bounded model checking of the design plus conformance of the code '
+         'on the generated tuples; not a proof for all messages.',
+ 'note': 'Trusted base: TLC 1.8.0 evaluating the TLA+ predicates; the Go abstraction function (harness/mini, '
+         'Abs/Conc between spec messages and TestAllTypes); the harness reporting faithfully what the real '
+         'code returned. Miniature schema (9 fields of TestAllTypes covering implicit/optional scalars, '
+         'nested messages, repeated scalar/message, map, oneof) stands for all field kinds.'}
